@@ -127,6 +127,7 @@ type RunResult struct {
 	// MinIncomplete: the wall-clock backstop ended minimisation.
 	MinIncomplete bool `json:"min_incomplete,omitempty"`
 	MinCandidates int  `json:"min_candidates,omitempty"`
+	Unminimised   bool `json:"unminimised,omitempty"`
 }
 
 // DebugAfterStep is a development hook (nil in checks).
@@ -289,6 +290,9 @@ func runInBubble(p *Profile, o RunOpts, res *RunResult) {
 			rc.Trace[i].Sched = w.LastSchedTrace // the schedule as decided is part of the trace
 		}
 		rc.Outs = append(rc.Outs, sr.Out)
+		if drainDebug {
+			fmt.Fprintf(os.Stderr, "MAIN %d %s -> %s spawned=%d\n", i, st.String(), sr.Out, w.bgSpawned())
+		}
 		rc.log.add(fmt.Sprintf("%d %s -> %s", i, st.String(), describe(&sr)))
 		if o.KeepLog {
 			rc.dumpState()
